@@ -817,13 +817,32 @@ class Normaliser:
                 if got is not None or has_call(e.left):
                     return got
                 return find(e.right, lambda v, e=e: setattr(e, 'right', v))
-            if isinstance(e, (ast.Tuple, ast.List)):
+            if isinstance(e, (ast.Tuple, ast.List, ast.Set)):
                 for j, x in enumerate(e.elts):
                     got = find(x, lambda v, e=e, j=j: e.elts.__setitem__(j, v))
                     if got is not None:
                         return got
                     if has_call(x):
                         return None
+            if isinstance(e, ast.Dict):
+                # keys and values are evaluated pairwise, left to right
+                for j, (k, x) in enumerate(zip(e.keys, e.values)):
+                    if k is not None and has_call(k):
+                        return None
+                    got = find(x, lambda v, e=e, j=j: e.values.__setitem__(j, v))
+                    if got is not None:
+                        return got
+                    if has_call(x):
+                        return None
+            if isinstance(e, ast.Subscript):
+                got = find(e.value, lambda v, e=e: setattr(e, 'value', v))
+                if got is not None or has_call(e.value):
+                    return got
+                return find(e.slice, lambda v, e=e: setattr(e, 'slice', v))
+            if isinstance(e, ast.Attribute):
+                return find(e.value, lambda v, e=e: setattr(e, 'value', v))
+            if isinstance(e, ast.Starred):
+                return find(e.value, lambda v, e=e: setattr(e, 'value', v))
             return None
 
         got = find(getattr(root, field), lambda v: setattr(root, field, v))
